@@ -64,6 +64,58 @@ def loops(seq, acc):
     return acc
 
 
+def prefix_items(seq, target):
+    """items that precede the repeat `target` (identified by object identity of its argument
+    tuple) on the path from the pattern root; None if target is not below seq"""
+    items = list(seq)
+    for k, (op, av) in enumerate(items):
+        if av is target:
+            return items[:k]
+        sub = None
+        if op in (sc.MAX_REPEAT, sc.MIN_REPEAT):
+            sub = prefix_items(av[2], target)
+        elif op is sc.SUBPATTERN:
+            sub = prefix_items(av[3], target)
+        elif op is sc.BRANCH:
+            for a in av[1]:
+                sub = prefix_items(a, target)
+                if sub is not None:
+                    break
+        elif op in (sc.ASSERT, sc.ASSERT_NOT):
+            sub = prefix_items(av[1], target)
+            if sub is not None:
+                return None      # a loop inside a look-around: no textual prefix construction
+        if sub is not None:
+            return items[:k] + sub
+    return None
+
+
+def solve_prefix(tb, pattern_state, items, ctx, maxlen=14):
+    """a concrete string matched exactly by the item sequence (solver-chosen), or None"""
+    if not items:
+        return ''
+    prog = lexsmt.Prog()
+    try:
+        lexsmt.compile_seq(prog, sp.SubPattern(pattern_state, list(items)), tb.ptab, set())
+    except HarnessError:
+        return None
+    prog.emit('MATCH')
+    A = lexsmt.Alphabet(tb.ptab)
+    t = lexsmt.SymText(maxlen, A, 'pf')
+    ctx2 = _Ctx()
+    ctx2.flags, ctx2.wordkey, ctx2.nlkey = ctx.flags, ctx.wordkey, ctx.nlkey
+    r = lexsmt.Matcher(prog, t, ctx2).run(0, 0)
+    if r is lexsmt.FAIL:
+        return None
+    s = z3.Optimize()
+    s.add(*t.cons)
+    s.add(r[0], r[1] == t.L)
+    s.minimize(t.L)
+    if s.check() != z3.sat:
+        return None
+    return t.value(s.model())
+
+
 def has_ref(seq):
     return bool(lexsmt.find_refs(seq, set()))
 
@@ -127,7 +179,7 @@ def run(tier):
                 raise lexsmt.Unsupported(f'back-reference inside a repeat in rule {ri}')
             lexsmt.compile_seq(prog, star, tb.ptab, set())
             prog.emit('MATCH')
-            work.append((ri, prog, body))
+            work.append((ri, prog, body, p, av))
     # predicates may have been added by compile_seq: rebuild the alphabet
     tb.A = lexsmt.Alphabet(tb.ptab)
     ctx = _Ctx()
@@ -142,8 +194,11 @@ def run(tier):
     s.add(*t.cons)
     t0 = time.time()
     nq = nd = 0
-    for ri, prog, body in work:
+    for ri, prog, body, parsed, lav in work:
         found = False
+        if len(chk.violations) >= 3:
+            chk.sample('stopped after 3 replayed violations; remaining repeats not examined')
+            break
         for w in range(1, W + 1):
             cnt = Counter(prog, t, ctx, 1 + w).run(0, 1)
             s.push()
@@ -158,7 +213,13 @@ def run(tier):
                 pump = full[1:1 + w]
                 # prefix candidates: solver-free -- try the pump itself preceded by typical openers
                 rx, fl, _ = tb.rules[ri]
-                pres = ['', full[:1], "'", '"', '`', '/*', '--', '$$', '[', '(', 'x', '0', '-']
+                pres = []
+                pi = prefix_items(parsed, lav)
+                if pi is not None:
+                    pf = solve_prefix(tb, parsed.state, pi, ctx)
+                    if pf is not None:
+                        pres.append(pf)
+                pres += ['', full[:1], "'", '"', '`', '/*', '--', '$$', '[', '(', 'x', '0', '-']
                 sufs = ['', '\x00', '!', '\n', ' ', 'z', "'", '"']
                 hit = confirm_blowup(rx, fl, pres, pump, sufs)
                 if hit:
@@ -203,7 +264,7 @@ def run(tier):
     # ---- validation of the counter against brute force on the real sub-pattern -----------------
     val = 0
     import itertools
-    for ri, prog, body in work[:: max(1, len(work) // 12)]:
+    for ri, prog, body, _p, _a in work[:: max(1, len(work) // 12)]:
         rx, fl, _ = tb.rules[ri]
         for wtxt in ('a', "''", 'ab', '  ', '1.', "\\'", '*/'):
             if len(wtxt) + 1 > N:
